@@ -335,7 +335,7 @@ def _between_conds(cfg, defs, name, st, node):
     return expand_conds(out)
 
 
-def refine_conds(cfg, defs, node, cs, fold, rounds=4, ident=None):
+def refine_conds(cfg, defs, node, cs, fold, rounds=4, ident=None, _depth=0):
     """Reaching-definition refinement of path conditions.
 
     For a condition ``v <op> e`` (== / != / is / is not, v a plain local) known with polarity p at ``node``: every
@@ -344,7 +344,12 @@ def refine_conds(cfg, defs, node, cs, fold, rounds=4, ident=None):
     is not True) -- for every known condition on that local.  If exactly one definition remains, the conditions under
     which that definition runs hold at ``node`` too, so do the outcomes of the branches between the definition and
     ``node`` that every way takes, and so does each known comparison with the defining expression in place of the
-    local -- provided nothing in between re-binds a name those expressions read."""
+    local -- provided nothing in between re-binds a name those expressions read.
+
+    Likewise for a plain local known to be true / false (``fix = False ... fix = a != b ... if fix and ..:``): a definition
+    binding a constant of the other truth is ruled out; when one definition remains, its expression has that truth --
+    what that says is worked out where the definition stands and carried over to ``node``."""
+    from ..cfg import expand_conds
     out = list(cs)
     known = set((norm(t), p) for t, p in out)
     ruled, done = {}, set()
@@ -357,7 +362,17 @@ def refine_conds(cfg, defs, node, cs, fold, rounds=4, ident=None):
             for side, other, which in ((t.left, t.comparators[0], 'l'), (t.comparators[0], t.left, 'r')):
                 if isinstance(side, ast.Name):
                     comps.append((t, p, side, other, which))
+        # (a plain local tested for truth: ``flag = False`` ... ``flag = a != b`` ... ``if flag and ..:``)
+        truths = []
+        for t, p in out:
+            t, p = strip_not(t, p)
+            if isinstance(t, ast.Name):
+                truths.append((t, p))
         # what is known rules out definitions ...
+        for t, p in truths:
+            for st, val, mid in defs.reaching(t.id, node) or ():
+                if isinstance(val, ast.Constant) and bool(val.value) is not p:
+                    ruled.setdefault(t.id, set()).add(id(st))
         for t, p, side, other, which in comps:
             rd = defs.reaching(side.id, node)
             if not rd:
@@ -394,6 +409,37 @@ def refine_conds(cfg, defs, node, cs, fold, rounds=4, ident=None):
                     new.append((t2, p2))
             if len(rd) > 1:
                 new.extend(_between_conds(cfg, defs, side.id, st, node))
+        for t, p in truths:
+            key = (t.id, p, 'truth')
+            if key in done:
+                continue
+            rd = defs.reaching(t.id, node)
+            if not rd:
+                continue
+            keep = [d for d in rd if id(d[0]) not in ruled.get(t.id, ())]
+            if len(keep) != 1 or len(rd) < 2:
+                continue          # (a local with one definition is expanded by the CFG's own named conditions)
+            done.add(key)
+            st, val, mid = keep[0]
+            # the definition that is left bound a value of that truth: what that says is worked out where the definition
+            # stands (the locals its expression reads have their own definitions right there), then carried over to ``node``
+            # as far as nothing in between re-binds a name it reads
+            at_def = None
+            for n_ in cfg.nodes_of(st):
+                if not cfg.reachable(n_):
+                    continue
+                cs_ = cfg.conds_at(n_)
+                if not isinstance(val, ast.Constant) and t.id not in set(x.id for x in ast.walk(val) if isinstance(x, ast.Name)):
+                    cs_ = cs_ + expand_conds([(val, p)])
+                if _depth < 2:
+                    cs_ = refine_conds(cfg, defs, n_, cs_, fold, rounds, ident, _depth + 1)
+                keyed = dict(((norm(t2), p2), (t2, p2)) for t2, p2 in cs_)
+                at_def = keyed if at_def is None else dict((k, v) for k, v in at_def.items() if k in keyed)
+            for t2, p2 in (at_def or {}).values():
+                if not cfg._kills(t2, mid):
+                    new.append((t2, p2))
+            new.extend(_between_conds(cfg, defs, t.id, st, node))
+        new = expand_conds(new)
         grew = False
         for t, p in new:
             k = (norm(t), p)
